@@ -253,7 +253,11 @@ def _run_case(arg):
         fails = []
         d = util.tree_equals_parse(o)
         if d is not None:
-            fails.append(('invalid-tree', d))
+            cls = 'invalid-tree'
+            if 'withitem(context_expr=Tuple(elts=[' in d and 'structure differs' in d and 'with (' in o.src:
+                # same defect as C01-K3: `with (x,):` is read by CPython as a parenthesised with-item list, not a 1-tuple
+                cls = 'invalid-tree@with-sole-1tuple'
+            fails.append((cls, d))
         else:
             got = L.norm_dump(o.a)
             if got != want:
